@@ -246,7 +246,7 @@ pub fn check(s: &'static dyn Proto, c: &Case, st: &mut Stats, _k: &KnownFindings
 }
 
 pub const BUDGET: Budget = Budget {
-    quick: (3, 2, 1),
+    quick: (12, 8, 4),
     thorough: (40, 15, 5),
     shrink: 8,
 };
